@@ -174,7 +174,7 @@ where
     if let Some((ids, inside)) = from_left {
         for y in &ys {
             cx.bump(S::addr_checks);
-            let ok_id = !KD::TRACKED || ids.get(&y.raw) == Some(&y.kid);
+            let ok_id = !KD::IDENT || ids.get(&y.raw) == Some(&y.kid);
             cx.chk(P08.and(Prop::C06), inside(y.ka) && ok_id, "left-reference", || format!("{name} yields a reference (element {}) that is not the left operand's own element", y.raw));
         }
     }
